@@ -3,7 +3,7 @@
 import json, os, shutil, sys, re
 src, pid = sys.argv[1], sys.argv[2]
 notes = open(os.path.join(src, 'notes.md')).read() if os.path.exists(os.path.join(src, 'notes.md')) else ''
-for v in ('a', 'b', 'c', 'd', 'e', 'f', 'g', 'h', 'i', 'j', 'k', 'l'):
+for v in ('a', 'b', 'c', 'd', 'e', 'f', 'g', 'h', 'i', 'j', 'k', 'l', 'm', 'n'):
     vf = os.path.join(src, f'verify_{v}.json')
     if not os.path.exists(vf):
         continue
